@@ -371,24 +371,24 @@ fn check_big_limit(limit: usize, spf: &[u32], parallel: bool) -> Outcome {
     let starts: Vec<usize> = (0..=limit).step_by(CHUNK).collect();
     // pass 1: is_prime, min_prime
     let pass1 = |&a: &usize| {
-            let mut o = Outcome::default();
-            for n in a..(a + CHUNK).min(limit + 1) {
-                o.c.pairs += 1;
-                o.c.is_prime += 1;
-                let isp = n >= 2 && spf[n] as usize == n;
-                if let Err(m) = check_is_prime(&s, n, isp) {
-                    o.push(fail("is_prime", limit, Some(n), "n", m, "eratosthenes"));
-                }
-                if n >= 2 {
-                    o.c.min_prime += 1;
-                    if let Err(m) = check_min_prime(&s, n, spf[n] as u64) {
-                        o.push(fail("min_prime", limit, Some(n), "n", m, "eratosthenes"));
-                    }
-                } else {
-                    o.c.skipped_out_of_domain += 1;
-                }
+        let mut o = Outcome::default();
+        for n in a..(a + CHUNK).min(limit + 1) {
+            o.c.pairs += 1;
+            o.c.is_prime += 1;
+            let isp = n >= 2 && spf[n] as usize == n;
+            if let Err(m) = check_is_prime(&s, n, isp) {
+                o.push(fail("is_prime", limit, Some(n), "n", m, "eratosthenes"));
             }
-            o
+            if n >= 2 {
+                o.c.min_prime += 1;
+                if let Err(m) = check_min_prime(&s, n, spf[n] as u64) {
+                    o.push(fail("min_prime", limit, Some(n), "n", m, "eratosthenes"));
+                }
+            } else {
+                o.c.skipped_out_of_domain += 1;
+            }
+        }
+        o
     };
     let parts: Vec<Outcome> = if parallel { starts.par_iter().map(pass1).collect() } else { starts.iter().map(pass1).collect() };
     for p in parts {
@@ -413,20 +413,20 @@ fn check_big_limit(limit: usize, spf: &[u32], parallel: bool) -> Outcome {
         o.c.factorize_skipped_table_could_spin += 1;
     } else {
         let pass2 = |&a: &usize| {
-                let mut o = Outcome::default();
-                let mut buf = Vec::with_capacity(16);
-                for n in a.max(1)..(a + CHUNK).min(limit + 1) {
-                    fact_from_spf(spf, n, &mut buf);
-                    match check_factorize(&s, n, &buf) {
-                        Ok(()) => o.c.saw_factorisation(&buf),
-                        Err(m) => {
-                            o.c.factorize += 1;
-                            o.push(fail("factorize", limit, Some(n), "n", m, "eratosthenes"));
-                            break;
-                        }
+            let mut o = Outcome::default();
+            let mut buf = Vec::with_capacity(16);
+            for n in a.max(1)..(a + CHUNK).min(limit + 1) {
+                fact_from_spf(spf, n, &mut buf);
+                match check_factorize(&s, n, &buf) {
+                    Ok(()) => o.c.saw_factorisation(&buf),
+                    Err(m) => {
+                        o.c.factorize += 1;
+                        o.push(fail("factorize", limit, Some(n), "n", m, "eratosthenes"));
+                        break;
                     }
                 }
-                o
+            }
+            o
         };
         let parts: Vec<Outcome> = if parallel { starts.par_iter().map(pass2).collect() } else { starts.iter().map(pass2).collect() };
         for p in parts {
@@ -746,19 +746,34 @@ fn main() {
         }
     }
 
-    // every small limit
-    let outcomes: Vec<Outcome> = (0..=max_small).into_par_iter().map(|limit| check_small_limit(limit, &sref)).collect();
+    let big_list: Vec<usize> = bigs.iter().map(|b| b.0).collect();
+    let refs = Refs { small: sref, spf };
+    let (sref, spf) = (&refs.small, &refs.spf);
+    let scheds = schedules(max_small, &big_list);
+
+    // Every construction below happens on a thread created for it, so what that thread constructed before is
+    // known exactly: nothing (solo) or the schedule's prefix.  The four schedule threads run alongside the
+    // solo passes; the rayon pool only ever runs queries on a finished sieve and hosts no construction.
+    let (outcomes, big_outcomes, sched_outcomes): (Vec<Outcome>, Vec<Outcome>, Vec<Vec<Outcome>>) = std::thread::scope(|sc| {
+        let handles: Vec<_> = scheds.iter().map(|s| sc.spawn(|| s.steps.iter().map(|&st| exercise(st, &refs)).collect::<Vec<Outcome>>())).collect();
+        // solo, every small limit
+        let outcomes: Vec<Outcome> = (0..=max_small).into_par_iter().map(|limit| on_fresh_thread(|| check_small_limit(limit, sref))).collect();
+        // solo, the big limits (one table of the reference serves all: the least prime factor does not depend on N)
+        let big_outcomes: Vec<Outcome> = big_list.iter().map(|&b| on_fresh_thread(|| check_big_limit(b, spf, true))).collect();
+        let sched_outcomes = handles
+            .into_iter()
+            .map(|h| h.join().unwrap_or_else(|_| run.machinery_failure("a schedule thread panicked outside the code under test")))
+            .collect();
+        (outcomes, big_outcomes, sched_outcomes)
+    });
+
     let mut total = Counters::default();
-    let mut first: Vec<Fail> = vec![]; // per family, first in order of N then n
+    let mut located: Vec<Located> = vec![];
     let (mut lim_prime, mut lim_sq, mut lim_pq, mut lim_next_composite, mut lim_next_prime) = (0u64, 0u64, 0u64, 0u64, 0u64);
     let mut limits_compared = 0u64;
     for (limit, o) in outcomes.iter().enumerate() {
         total.merge(&o.c);
-        for f in &o.fails {
-            if !first.iter().any(|g| g.family == f.family) {
-                first.push(f.clone());
-            }
-        }
+        located.extend(o.fails.iter().map(|f| Located { order: 0, prefix: &[], fail: f.clone() }));
         if o.has("panic_on_new") {
             continue;
         }
@@ -780,34 +795,79 @@ fn main() {
     }
     let small_counters = total.clone();
 
-    // the big limits (one table of the reference serves all: the least prime factor does not depend on N)
-    let mut big_limits_with_failure = 0u64;
     let mut big_counters = Counters::default();
-    for &(b, _) in &bigs {
-        let ob = check_big_limit(b, &spf);
+    for ob in &big_outcomes {
         big_counters.merge(&ob.c);
-        for f in &ob.fails {
-            if !first.iter().any(|g| g.family == f.family) {
-                first.push(f.clone());
-            }
-        }
-        big_limits_with_failure += (!ob.fails.is_empty()) as u64;
+        located.extend(ob.fails.iter().map(|f| Located { order: 0, prefix: &[], fail: f.clone() }));
     }
     total.merge(&big_counters);
+    let solo_counters = total.clone();
 
-    first.sort_by_key(|f| FAMILIES.iter().position(|x| *x == f.family));
+    // the schedules: counters per schedule, and what preceded each compared construction
+    let mut sched_cov = vec![];
+    let mut want_pairs_sched = 0u64;
+    let (mut after_larger, mut after_smaller, mut larger_earlier): (BTreeSet<usize>, BTreeSet<usize>, BTreeSet<usize>) = Default::default();
+    let (mut steps_after_larger, mut steps_after_smaller, mut warm_ups) = (0u64, 0u64, 0u64);
+    let mut sched_limits_with_failure = 0u64;
+    for (si, (s, outs)) in scheds.iter().zip(&sched_outcomes).enumerate() {
+        let mut c = Counters::default();
+        let mut smalls_compared: BTreeSet<usize> = BTreeSet::new();
+        let mut largest_so_far = 0usize;
+        for (pos, (st, o)) in s.steps.iter().zip(outs).enumerate() {
+            let largest_before = largest_so_far;
+            largest_so_far = largest_so_far.max(st.limit);
+            c.merge(&o.c);
+            located.extend(o.fails.iter().map(|f| Located { order: si + 1, prefix: &s.steps[..pos], fail: f.clone() }));
+            sched_limits_with_failure += (!o.fails.is_empty()) as u64;
+            if !st.compare {
+                warm_ups += 1;
+                continue;
+            }
+            want_pairs_sched += st.limit as u64 + 1;
+            if st.limit <= max_small && !o.has("panic_on_new") {
+                smalls_compared.insert(st.limit);
+            }
+            if largest_before > st.limit {
+                larger_earlier.insert(st.limit);
+            }
+            if pos > 0 {
+                let prev = s.steps[pos - 1].limit;
+                if prev > st.limit {
+                    steps_after_larger += 1;
+                    after_larger.insert(st.limit);
+                } else if prev < st.limit {
+                    steps_after_smaller += 1;
+                    after_smaller.insert(st.limit);
+                }
+            }
+        }
+        if located.is_empty() && smalls_compared.len() != max_small + 1 {
+            run.machinery_failure(&format!("schedule {} did not build and compare every small limit", s.name));
+        }
+        sched_cov.push(json!({"schedule": s.name, "constructions": s.steps.len(), "first": steps_json(&s.steps[..3.min(s.steps.len())]), "last": s.steps.last().map(|x| x.limit), "evaluations": c.evaluations(), "pairs_N_n": c.pairs}));
+        total.merge(&c);
+    }
+
+    // per family the failure with the smallest (N, n), the earliest pass among equals; then its shortest history
+    let mut first: Vec<Fail> = vec![];
+    for fam in FAMILIES {
+        if let Some(l) = located.iter().filter(|l| l.fail.family == fam).min_by_key(|l| (l.fail.limit, l.fail.n, l.order)) {
+            let h = minimal_history(l, big, &refs);
+            first.push(with_history(l.fail.clone(), &h));
+        }
+    }
     for f in &first {
         run.violation(Violation::new(f.signature.clone(), f.summary.clone(), f.replay.clone()));
     }
-    let limits_with_failure = outcomes.iter().filter(|o| !o.fails.is_empty()).count() as u64 + big_limits_with_failure;
-    let big_list: Vec<usize> = bigs.iter().map(|b| b.0).collect();
+    let limits_with_failure = outcomes.iter().chain(&big_outcomes).filter(|o| !o.fails.is_empty()).count() as u64 + sched_limits_with_failure;
 
     run.cov("evaluations", total.evaluations());
     run.cov("distinct_nontrivial", lim_prime + lim_sq + lim_pq);
+    let max_small_m1 = max_small - 1;
     run.cov(
         "rule",
         format!(
-            "every limit N in 0..={max_small} (each a fresh Sieve::new(N)) x every n in 0..=N: is_prime(n); min_prime(n) for n>=2; factorize(n) for n>=1; primes() whole list — against trial division; plus every N in {big_list:?} element by element (is_prime, min_prime, factorize for every n<=N, primes()) against a plain Eratosthenes sieve; the whole enumeration is run a second time in a build with debug assertions and integer overflow checks (an overflow panic on an in-domain n is a violation there). evaluations = calls of the real code compared with the reference (constructor + is_prime + min_prime + primes() + factorize calls). distinct_nontrivial = number of distinct small limits N, built and compared, whose last table entry N is a prime, a prime square p^2 or a product p*q of two distinct primes (classified by the trial-division reference): the limits where the last outer iteration appends a prime, or where the last composite is written at the very edge of the table by the cut-off `prime*i >= len`"
+            "every limit N in 0..={max_small} (each a fresh Sieve::new(N)) x every n in 0..=N: is_prime(n); min_prime(n) for n>=2; factorize(n) for n>=1; primes() whole list — against trial division; plus every N in {big_list:?} element by element (is_prime, min_prime, factorize for every n<=N, primes()) against a plain Eratosthenes sieve. The constructor is not assumed pure: every construction happens on a dedicated thread whose construction history is part of the case. Pass 'solo': each limit (small and big) is the first construction of a thread created for it. Then four schedules, each executed from start to end on one fresh thread with the full comparison after every construction and the sieve dropped before the next: 'ascending' 0..={max_small}; 'descending' {max_small}..=0; 'big_first' (Sieve::new({big}) constructed and dropped, then the other big limits in descending order, then 0..={max_small}); 'alternating' 0,{max_small},1,{max_small_m1},… . So every small limit is compared 5 times: as a first construction, right after N-1, right after N+1, after a big limit, and after a distant smaller/larger one. A failure is reported with the shortest history that reproduces it on a fresh thread (tried in this order: none; N+1 constructed and dropped; the recorded predecessor; the largest limit constructed and dropped; the whole recorded prefix), the replay re-executes that history on a fresh thread. The whole enumeration is run a second time in a build with debug assertions and integer overflow checks (an overflow panic on an in-domain n is a violation there). evaluations = calls of the real code compared with the reference (constructor + is_prime + min_prime + primes() + factorize calls). distinct_nontrivial = number of distinct small limits N, built and compared, whose last table entry N is a prime, a prime square p^2 or a product p*q of two distinct primes (classified by the trial-division reference): the limits where the last outer iteration appends a prime, or where the last composite is written at the very edge of the table by the cut-off `prime*i >= len`"
         ),
     );
     run.cov("exhaustive", true);
@@ -817,6 +877,14 @@ fn main() {
     run.cov("big_limits_factorize_max_distinct_primes", big_counters.max_distinct_primes);
     run.cov("big_limits_factorize_max_exponent", big_counters.max_exponent);
     run.cov("limits_built", total.news);
+    run.cov("limits_built_solo", solo_counters.news);
+    run.cov("schedules", json!(sched_cov));
+    run.cov("schedule_warm_up_constructions_not_compared", warm_ups);
+    run.cov("schedule_constructions_right_after_a_larger_limit", steps_after_larger);
+    run.cov("schedule_constructions_right_after_a_smaller_limit", steps_after_smaller);
+    run.cov("distinct_limits_compared_right_after_a_larger_limit", after_larger.len() as u64);
+    run.cov("distinct_limits_compared_right_after_a_smaller_limit", after_smaller.len() as u64);
+    run.cov("distinct_limits_compared_with_a_larger_limit_earlier_on_the_thread", larger_earlier.len() as u64);
     run.cov("limits_compared_small", limits_compared);
     run.cov("limits_with_a_failure", limits_with_failure);
     run.cov("pairs_N_n", total.pairs);
@@ -846,6 +914,7 @@ fn main() {
     for &limit in &[1usize, 4, 9 + rot, 120 + rot, max_small - rot] {
         run.sample(observed_sample(limit, &[0, 1, 2, limit.saturating_sub(1), limit]));
     }
+    run.assume("state of the code under test that is shared between threads (process-wide statics) is not modelled: a construction's history is what its own thread constructed before");
     run.sample(observed_sample(big, &[1, 2, 720_720 + rot, 999_983, 1 << 19, 9_699_690, 1 << 23, big - 1, big]));
 
     // a table that could make factorize spin was never exercised: no verdict possible on that clause
@@ -855,11 +924,17 @@ fn main() {
         }
         // non-vacuity
         let want_pairs: u64 = (0..=max_small as u64).map(|n| n + 1).sum::<u64>() + big_list.iter().map(|&b| b as u64 + 1).sum::<u64>();
-        if total.pairs != want_pairs {
-            run.machinery_failure(&format!("compared {} (N,n) pairs, expected {want_pairs}", total.pairs));
+        if solo_counters.pairs != want_pairs || total.pairs != want_pairs + want_pairs_sched {
+            run.machinery_failure(&format!("compared {} (N,n) pairs, expected {}", total.pairs, want_pairs + want_pairs_sched));
         }
-        if total.news != (max_small + 1 + bigs.len()) as u64 || limits_compared != max_small as u64 + 1 {
+        let sched_steps: u64 = scheds.iter().map(|s| s.steps.len() as u64).sum();
+        if solo_counters.news != (max_small + 1 + bigs.len()) as u64 || limits_compared != max_small as u64 + 1 || total.news != solo_counters.news + sched_steps - warm_ups {
             run.machinery_failure("not every limit was built and compared");
+        }
+        // every small limit was compared with a larger construction somewhere before it, right after a larger
+        // one (except the largest small limit) and right after a smaller one (except 0)
+        if larger_earlier.range(..=max_small).count() != max_small + 1 || after_larger.range(..=max_small).count() != max_small || after_smaller.range(..=max_small).count() != max_small || warm_ups == 0 {
+            run.machinery_failure("the schedules did not put a larger and a smaller construction before every small limit");
         }
         if total.factorize != total.pairs - total.news {
             run.machinery_failure("factorize was not compared for every n >= 1 of every limit");
